@@ -64,6 +64,13 @@ double Round(double N, unsigned int digits)
 
 	// Round the prefactor
 	prefactor = std::floor(prefactor * pow(10.0, digits - 1) + 0.5);
+	// A carry to the next power of ten (9.96 -> 10.0 for three digits) is written as 1.00 times the next power, which is the
+	// decomposition Round finds when it is applied to the result again.
+	if(prefactor >= pow(10.0, digits))
+	{
+		prefactor /= 10.0;
+		DecimalPower += 1.0;
+	}
 	prefactor = prefactor * pow(10.0, -1.0 * digits + 1);
 
 	return sign * prefactor * pow(10, DecimalPower);
